@@ -111,7 +111,14 @@ fn set_mates(records: &mut [Record]) {
         let record = &mut records[i];
         let flags = record.bam_flags;
 
-        if flags.is_segmented() && !flags.is_secondary() {
+        // Mate fields and template lengths of attached records are recomputed from the mate when
+        // read, which is only defined between the mapped primary segments of a template.
+        let is_attachable = flags.is_segmented()
+            && !flags.is_unmapped()
+            && !flags.is_secondary()
+            && !flags.is_supplementary();
+
+        if is_attachable {
             let name = record.name.as_ref().map(|name| name.to_owned());
 
             if let Some(j) = indices.insert(name, i) {
